@@ -718,7 +718,10 @@ impl Run {
             return false;
         }
         self.w.es = entries(&self.w.cfg.me, &im);
-        self.w.shape = partition_shape(&self.w.es);
+        // an empty cluster name means "in no cluster" (every command is answered ERR_CLUSTER_NOT_FOUND): the
+        // broker sends it only together with slot-less nodes; a hand-built meta with slots under the empty
+        // name is outside the property's hypotheses (theorem hypothesis `vw.name ≠ ""`)
+        self.w.shape = if im.name.is_empty() { Err("empty cluster name".to_string()) } else { partition_shape(&self.w.es) };
         self.w.im = im;
         self.w.states = vec![];
         self.s.stats.count(if self.w.shape.is_ok() { "meta.partition" } else { "meta.not_partition" });
